@@ -39,8 +39,9 @@ META = {
               "destination components unbounded symbolic integers (every "
               "three-axis representation, negatives included).  Torus "
               "functions: the same six unbounded symbolic components, every "
-              "width x height in 1..8 x 1..8 (quick) / 1..24 x 1..24 "
-              "(thorough), 1xN and 2xN included, one unit per size; every "
+              "width x height in 1..8 x 1..8 plus the elongated 16x3, 3x16, "
+              "22x4, 5x24, 24x1, 2x19 (quick) / 1..24 x 1..24 (thorough), "
+              "1xN and 2xN included, one unit per size; every "
               "outcome of random.random() (a symbolic real in [0,1), ties "
               "included) and random.randint (a symbolic integer in its "
               "range).  longest_dimension_first: every vector with components "
@@ -52,7 +53,18 @@ META = {
               "one of -1, 0, 1 or an unbounded symbolic integer of magnitude "
               "> 1; the six links' to_vector/opposite enumerated.  "
               "concentric_hexagons: radius 0..6 (quick) / 0..10 (thorough), "
-              "start an unbounded symbolic (x, y) or the default.",
+              "start an unbounded symbolic (x, y) or the default, each in a "
+              "freshly re-executed rig.geometry.  concentric_hexagons call "
+              "histories (unit 'hexagons history'): a generator A of radius "
+              "1..3 (quick) / 1..4 (thorough) advanced by k items -- quick: "
+              "one k per position class (not started, centre only, first / "
+              "middle / last-but-one / last item of every ring), thorough: "
+              "every k -- then closed, or left suspended, or finished after "
+              "the later call (interleaving); the later full enumeration B "
+              "has every radius 0..3 (0..4) and another unbounded symbolic "
+              "start; B (and A when finished) must be the exact set, once "
+              "each, nearest ring first.  Each history starts from a "
+              "re-executed rig.geometry module.",
     "stubs": ["`random` in rig.geometry and rig.place_and_route.route.utils "
               "is rebound to a stub: random() returns a fresh symbolic real "
               "r with 0 <= r < 1, randint(a, b) a fresh symbolic integer in "
@@ -67,17 +79,28 @@ META = {
         "north_east (1,1), north (0,1), west (-1,0), south_west (-1,-1), "
         "south (0,-1), numbered 0..5 in that order; a vector (x, y, z) stands "
         "for x east, y north and z south-west steps",
+        "the state of a fresh process is restored by importlib.reload("
+        "rig.geometry) at the start of every hexagon path (whatever "
+        "module-level state exists, by any name, is re-created); state kept "
+        "outside rig.geometry would not be reset",
         "Links.from_vector on a wrapped component (|v| > 1) means one step "
         "against the sign of v; for the two 2xN special cases (1,-1) and "
         "(-1,1) any link congruent to the vector modulo 2 in both "
         "coordinates is accepted; (0,0) is outside the function's domain",
     ],
     "outside_claim": [
-        "torus width or height > 8 (quick) / > 24 (thorough)",
+        "torus sizes other than those listed under bounds (quick) / width "
+        "or height > 24 (thorough)",
         "longest_dimension_first vectors longer than 3 (quick) / 4 "
         "(thorough) per axis, and topologies other than the listed sizes",
         "concentric_hexagons radius > 6 (quick) / > 10 (thorough) and "
         "negative radii",
+        "concentric_hexagons call histories with more than two generators, "
+        "radii above 3 (quick) / 4 (thorough) in a history, generators "
+        "advanced from several threads, and histories of the other "
+        "functions (they are called once per path in a process that has "
+        "called them before with other arguments; no reset is made for "
+        "them)",
         "any width and height at once: the run with symbolic width and "
         "height (non-linear) is informational, see coverage."
         "symbolic_width_height in the thorough evidence; it is not part of "
@@ -569,8 +592,45 @@ def h_links(ctx):
 # ----------------------------------------------------------------------
 # concentric_hexagons
 # ----------------------------------------------------------------------
+def _fresh_geometry():
+    """Put rig.geometry back into the state of a fresh process.
+
+    Anything a call may have left behind at module level (a cache, a
+    function attribute, a mutable default argument -- whatever its name) is
+    discarded by re-executing the module.  Every hexagon path starts with
+    this (about 9 ms), so that the verdict of a path depends on that path's own call
+    history only -- not on which paths the worker process ran before -- and a
+    replay in a fresh process sees what the exploring worker saw."""
+    import importlib
+    import rig.geometry
+    importlib.reload(rig.geometry)
+    return rig.geometry.concentric_hexagons
+
+
+def _hex_oracle(ctx, out, x0, y0, r, what):
+    """`out` is every chip within distance r of (x0, y0), once each, nearest
+    ring first."""
+    # offsets from the centre: constants, whatever the (symbolic) centre
+    offs = [(int(x - x0), int(y - y0)) for x, y in out]
+    want = sorted((i, j) for i in range(-r, r + 1) for j in range(-r, r + 1)
+                  if mesh_dist(i, j) <= r)
+    ctx.prove(len(offs) == len(set(offs)), "C11:hexagons-chip-repeated",
+              (what, r, offs))
+    ctx.prove(sorted(offs) == want, "C11:hexagons-wrong-set-of-chips",
+              (what, r, sorted(set(want) ^ set(offs))))
+    dists = [mesh_dist(i, j) for i, j in offs]
+    ctx.prove(all(a <= b for a, b in zip(dists, dists[1:])),
+              "C11:hexagons-not-nearest-ring-first", (what, r, dists))
+    ctx.prove(bool(offs) and offs[0] == (0, 0), "C11:hexagons-centre-first",
+              what)
+    if not ctx.symbolic:
+        for (i, j), dd in zip(offs, dists):
+            ctx.prove(brute_mesh(i, j) == dd,
+                      "C11:lemma-mesh-closed-form-vs-search", (i, j, dd))
+
+
 def h_hexagons(ctx, rmax):
-    from rig.geometry import concentric_hexagons
+    concentric_hexagons = _fresh_geometry()
     r = ctx.pick(range(rmax + 1))
     default_start = ctx.choose(2)
     if default_start:
@@ -585,22 +645,94 @@ def h_hexagons(ctx, rmax):
         return
     ctx.observe(out)
     ctx.witness("radius %d" % min(r, 2))
-    # offsets from the centre: constants, whatever the (symbolic) centre
-    offs = [(int(x - x0), int(y - y0)) for x, y in out]
-    want = sorted((i, j) for i in range(-r, r + 1) for j in range(-r, r + 1)
-                  if mesh_dist(i, j) <= r)
-    ctx.prove(len(offs) == len(set(offs)), "C11:hexagons-chip-repeated",
-              (r, offs))
-    ctx.prove(sorted(offs) == want, "C11:hexagons-wrong-set-of-chips",
-              (r, sorted(set(want) ^ set(offs))))
-    dists = [mesh_dist(i, j) for i, j in offs]
-    ctx.prove(all(a <= b for a, b in zip(dists, dists[1:])),
-              "C11:hexagons-not-nearest-ring-first", (r, dists))
-    ctx.prove(bool(offs) and offs[0] == (0, 0), "C11:hexagons-centre-first")
-    if not ctx.symbolic:
-        for (i, j), dd in zip(offs, dists):
-            ctx.prove(brute_mesh(i, j) == dd,
-                      "C11:lemma-mesh-closed-form-vs-search", (i, j, dd))
+    _hex_oracle(ctx, out, x0, y0, r, "one full enumeration in a fresh module")
+
+
+def _n_hex(r):
+    return 3 * r * (r + 1) + 1
+
+
+def _cut_positions(ra, every):
+    """Numbers of items after which generator A is left: all of 0..N(ra)-1,
+    or one per position class: not started, centre only, and for every ring
+    its first item, its middle, its last but one and its last item."""
+    if every:
+        return list(range(_n_hex(ra)))
+    ks = {0, 1}
+    for ring in range(1, ra + 1):
+        first = _n_hex(ring - 1) + 1
+        ks.update((first, first + 3 * ring - 1, _n_hex(ring) - 1,
+                   _n_hex(ring)))
+    return sorted(k for k in ks if k < _n_hex(ra))
+
+
+def h_hex_history(ctx, rmax, every):
+    """concentric_hexagons is a function of its arguments only: what earlier
+    generators did -- in particular generators that were abandoned part-way
+    round a ring, or are still suspended -- does not change what a later
+    enumeration yields.
+
+    (a) "abandon": a generator A (radius ra) is advanced by k items -- k
+    from _cut_positions: before the centre, between rings, inside each ring
+    -- and then closed or left suspended (the nearest-neighbour
+    search idiom: break at the first hit); then a full enumeration B from
+    another (symbolic) centre with radius rb (below, at and above the ring A
+    was cut in) must satisfy the oracle.
+    (b) "interleave": A is advanced by k, B is consumed completely, then A is
+    finished; both must satisfy the oracle."""
+    import itertools
+    from rig.geometry import concentric_hexagons as stale
+    scenario = ctx.pick(["abandon-close", "abandon-suspended", "interleave"])
+    ra = ctx.pick(range(1, rmax + 1))
+    k = ctx.pick(_cut_positions(ra, every))
+    rb = ctx.pick(range(rmax + 1))
+    ax, ay = ctx.int("ax"), ctx.int("ay")
+    bx, by = ctx.int("bx"), ctx.int("by")
+    # The state this path starts from is that of a fresh process (in which
+    # a full enumeration is correct: unit "hexagons").
+    concentric_hexagons = _fresh_geometry()
+    ctx.prove(stale is not concentric_hexagons,
+              "C11:hexagons-module-state-not-reset")
+    def run():
+        gen_a = concentric_hexagons(ra, (ax, ay))
+        head = list(itertools.islice(gen_a, k))
+        if scenario == "abandon-close":
+            gen_a.close()
+        out_b = list(concentric_hexagons(rb, (bx, by)))
+        tail = list(gen_a) if scenario == "interleave" else None
+        return head, out_b, tail, gen_a
+    ok, res, _ = _call(ctx, "concentric_hexagons", run)
+    if not ok:
+        return
+    head, out_b, tail, gen_a = res
+    ctx.observe(scenario, ra, k, rb, head, out_b, tail)
+    # which ring was A suspended in?  (k items consumed: the generator
+    # stands at the yield of item k-1)
+    ring = 0
+    while k > _n_hex(ring):
+        ring += 1
+    ctx.witness(scenario)
+    if 0 < k and k < _n_hex(ring) and ring >= 1 and rb >= ring:
+        ctx.witness("cut inside a ring that the later call needs")
+    if rb < ring:
+        ctx.witness("later call stops below the cut ring")
+    what = (scenario, "A: radius %d advanced by %d" % (ra, k),
+            "B: radius %d" % rb)
+    ctx.prove(len(head) == k, "C11:hexagons-wrong-set-of-chips",
+              (what, "A yielded only", len(head)))
+    _hex_oracle(ctx, out_b, bx, by, rb, what + ("B",))
+    if tail is not None:
+        _hex_oracle(ctx, head + tail, ax, ay, ra, what + ("A",))
+    else:
+        # what A did yield is a prefix of a correct enumeration
+        offs = [(int(x - ax), int(y - ay)) for x, y in head]
+        dists = [mesh_dist(i, j) for i, j in offs]
+        ctx.prove(len(set(offs)) == len(offs) and
+                  all(p <= q for p, q in zip(dists, dists[1:])) and
+                  all(d <= ra for d in dists) and
+                  all(dists.count(d) == (6 * d or 1)
+                      for d in set(dists[:-1]) if d < dists[-1]),
+                  "C11:hexagons-not-nearest-ring-first", (what, offs))
 
 
 # ----------------------------------------------------------------------
@@ -686,7 +818,13 @@ def units(tier, seed):
           Unit("links", h_links, witnesses=("table", "from_vector")),
           Unit("hexagons", h_hexagons,
                dict(rmax=10 if thorough else 6),
-               witnesses=("radius 0", "radius 1", "radius 2"))]
+               witnesses=("radius 0", "radius 1", "radius 2")),
+          Unit("hexagons history", h_hex_history,
+               dict(rmax=4 if thorough else 3, every=thorough), split=3,
+               witnesses=("abandon-close", "abandon-suspended",
+                          "interleave",
+                          "cut inside a ring that the later call needs",
+                          "later call stops below the cut ring"))]
     mag = 4 if thorough else 3
     for (w, h) in WALK_SIZES:
         us.append(Unit("walk %sx%s mag<=%d" % (w, h, mag), h_walk,
